@@ -60,7 +60,7 @@ def project(line):
     if not f:
         return line
     if f[0] == "U":
-        return "U"
+        return " ".join(f[:2])      # unrouted: the status code (404 from NotFound, or httprouter's own 301/307/405/200)
     if f[0] == "E2E":
         return "E2E " + ("same" if len(f) > 1 and f[1] == "same" else "DIFF")
     if f[0] == "FILE":
